@@ -989,12 +989,46 @@ def apply_opaque(E, qualname, st, args, kwargs):
 
 def assume_instances(E, c, st, where):
     """assume the lemma instances of contract c for program point `where` ('entry' | 'exit')"""
-    for cl in c.instances.get(where, []):
+    assume_instance_list(E, st, c.instances.get(where, []))
+
+
+def assume_instance_list(E, st, clauses):
+    """assume calls of registered (separately proved) spec lemmas, evaluated in state st"""
+    for cl in clauses:
         node = parse_clause(cl)
         ok = isinstance(node, ast.Call) and ast.unparse(node.func) in E.registry.lemmas
         if not ok:
             raise Unsupported('lemma instance %r is not a call of a registered (separately proved) spec lemma' % cl)
-        st.assume(_as_z3(eval_clause(E, cl, st)))
+        # an instance that cannot be evaluated (an argument raises) would count as False and make every later obligation vacuous
+        cases, raise_conds = eval_value(E, cl, st.fork())
+        if raise_conds or not cases:
+            raise Unsupported('lemma instance %r cannot be evaluated in this state (an argument may raise)' % cl)
+        # the lemma was proved for arguments of its declared parameter types only: guard the instance with them
+        guards = []
+        lc = E.registry.contracts.get(ast.unparse(node.func))
+        ptypes = list((lc.params or {}).items()) if lc is not None else []
+        if node.keywords or len(node.args) != len(ptypes):
+            raise Unsupported('lemma instance %r: positional arguments for all parameters expected' % cl)
+        for a, (pn, pt) in zip(node.args, ptypes):
+            pt = pt.strip()
+            if pt in ('int', 'bytes', 'bool', 'any'):
+                continue
+            src = ast.unparse(a)
+            m = re.fullmatch(r'int\[(-?\d+)\.\.(-?\d+)\](\|none)?', pt)
+            m2 = re.fullmatch(r'bytes<(\d+)>', pt)
+            if pt == 'nat':
+                guards.append('(%s) >= 0' % src)
+            elif m:
+                g = '(%s <= (%s) and (%s) <= %s)' % (m.group(1), src, src, m.group(2))
+                guards.append('((%s) is None or %s)' % (src, g) if m.group(3) else g)
+            elif m2:
+                guards.append('len(%s) == %s' % (src, m2.group(1)))
+            else:
+                raise Unsupported('lemma instance %r: parameter type %r of %s cannot be guarded' % (cl, pt, pn))
+        t = _as_z3(eval_clause(E, cl, st))
+        if guards:
+            t = z3.Implies(z3.And([_as_z3(eval_clause(E, g, st)) for g in guards]), t)
+        st.assume(t)
 
 
 def lemma_contract(reg, qualname, params, opaque=(), options=None, requires=()):
